@@ -170,6 +170,16 @@ def render_stmt(s, ind):
         return [f"{pad}while {render_expr(s['cond'])}:"] + render_block(s["body"], ind + 1)
     if k == "for":
         return [f"{pad}for {s['var']} in {render_expr(s['iter'])}:"] + render_block(s["body"], ind + 1)
+    if k == "matchs":
+        out = [f"{pad}match {render_expr(s['subj'])}:"]
+        for a in s["arms"]:
+            g = f" if {render_expr(a['guard'][0])}" if a["guard"] else ""
+            if s["form"] == "case":
+                out.append(f"{pad}    case {render_pat(a['pat'])}{g}:")
+            else:
+                out.append(f"{pad}    {render_pat(a['pat'])} =>")
+            out += render_block(a["body"], ind + 2)
+        return out
     raise ValueError(f"render_stmt: unknown kind {k}")
 
 
@@ -294,6 +304,11 @@ def to_project_stmt(s):
         return {"k": "while", "cond": to_project_expr(s["cond"]), "body": to_project_block(s["body"])}
     if k == "for":
         return {"k": "for", "var": s["var"], "iter": to_project_expr(s["iter"]), "body": to_project_block(s["body"])}
+    if k == "matchs":
+        return {"k": "expr", "e": {"k": "match", "subj": to_project_expr(s["subj"]),
+                                   "arms": [{"k": "arm", "pat": to_project_pat(a["pat"]),
+                                             "guard": [to_project_expr(a["guard"][0])] if a["guard"] else [],
+                                             "abk": "block", "e": [], "body": to_project_block(a["body"])} for a in s["arms"]]}}
     raise ValueError(f"to_project_stmt: {k}")
 
 
